@@ -48,7 +48,7 @@ fn run_once(sched: &Arc<Sched>, sc: &Value, sc_ix: usize, run_ix: usize, out: &A
         .iter()
         .enumerate()
         .map(|(w, &k)| {
-            let (gen, out, table) = (gen.clone(), out.clone(), table.clone());
+            let (gen, out, table, sched2) = (gen.clone(), out.clone(), table.clone(), sched.clone());
             Box::new(move || {
                 for _ in 0..k {
                     out.push(json!({"k": "call", "t": w + 1}));
@@ -56,6 +56,7 @@ fn run_once(sched: &Arc<Sched>, sc: &Value, sc_ix: usize, run_ix: usize, out: &A
                     let ix = table.get(&id).copied().unwrap_or(-1);
                     let exp = if ix >= 0 { oracle(start.wrapping_add(ix as u64)).to_string() } else { String::new() };
                     out.push(json!({"k": "ret", "t": w + 1, "id": ix, "raw": id.to_string(), "exp": exp}));
+                    sched2.note_call_done(w);
                 }
             }) as Job
         })
@@ -112,6 +113,13 @@ pub fn run_scenarios(scs: &[Value]) -> Vec<String> {
     for (ix, sc) in scs.iter().enumerate() {
         let sd = &sc["sched"];
         match sd["mode"].as_str().unwrap_or("all") {
+            "starve" => {
+                let n = sc["threads"].as_array().map(|a| a.len()).unwrap_or(1);
+                for v in 0..n {
+                    let mut ch = Starve { sched: sched.clone(), victim: v, other: None, next_other: 0, victim_turn: true };
+                    run_once(&sched, sc, ix, v, &out, &mut ch);
+                }
+            }
             "random" | "pct" => {
                 let runs = sd["runs"].as_u64().unwrap_or(1) as usize;
                 let mut rng = Rng(sd["seed"].as_u64().unwrap_or(1) ^ ((ix as u64) << 20));
